@@ -116,19 +116,9 @@ NA = {
          "is not Python source of the repository. A contract on _NonrecursivePickler's scheduler alone (work-list drained, no Python recursion) decides "
          "only the no-RecursionError clause, and a bounded round-trip comparison would be a different technique (testing), so nothing is claimed. "
          "C05's un-pickling clause is stated there as an explicit assumption."),
- "C11": ("Contract drafted (contracts/builders.py, load_adj_dict: explicit post-heap as a function of the processed input prefix, existential family of "
-         "created links, loop invariants for both loops), but the obligations of the nested creation loops do not discharge within the solver budgets "
-         "(each call of link_from_to re-establishes five global invariants over a heap described by three fold specifications); load_adj_matrix would add "
-         "2-D indexing on top. Undischarged obligations are not proofs, so the property is not claimed; the draft is not registered for any check."),
  "C14": ("render_to_plantuml_src assembles its text with str.format over option tables, class-hierarchy lookups (closest configured base class) and a set of "
          "links whose iteration order is unspecified; the property is about the parsed-back text. The string theory of z3/cvc5 does not decide format/join chains "
          "of this size (DESIGN.md 7), and the set-order dependence cannot be given a deterministic spec function. C13 covers the read-only part of the function."),
- "C15": ("The functional statement needs a contract for pyvis.network.Network (add_node / add_edge with its duplicate-suppression for undirected networks), "
-         "an unverified third-party dependency; only the frame half of make_pyvis_net (C13: nothing changed, marker removed on every exit) is proved. "
-         "A functional contract over an assumed Network model was not completed in the time available."),
- "C20": ("randgraph computes its sample sizes with float arithmetic (5/count, int(randint*connectivity)) and delegates the graph to load_adj_dict, whose "
-         "contract (C11) is not discharged; without the callee's contract the caller's postcondition cannot be derived modularly, and reproducibility under "
-         "seeding is a statement about CPython's random module. Not claimed."),
 }
 checks = []
 for pid, (cat, ref, text) in CLAIMED.items():
